@@ -156,16 +156,25 @@ impl RetryManager {
                                 // While a retrier is idle data is not kept in memory.
                                 // Load the pending appointments from the DB and feed them to the retrier
                                 retrier.set_status(RetrierStatus::Stopped);
+                                let mut wt_client = self.wt_client.lock().unwrap();
                                 retrier.pending_appointments.lock().unwrap().extend(
-                                    self.wt_client
-                                        .lock()
-                                        .unwrap()
-                                        .dbm
-                                        .load_appointment_locators(
-                                            retrier.tower_id,
-                                            crate::AppointmentStatus::Pending,
-                                        ),
+                                    wt_client.dbm.load_appointment_locators(
+                                        retrier.tower_id,
+                                        crate::AppointmentStatus::Pending,
+                                    ),
                                 );
+                                // The retrier is started in the next iteration. From now on new data has to be handed to it (data
+                                // for an unreachable tower is only stored, it would be left behind), so flag the tower accordingly
+                                // already (`Retrier::start` would do it anyway).
+                                if wt_client
+                                    .get_tower_status(&retrier.tower_id)
+                                    .map_or(false, |s| s.is_unreachable())
+                                {
+                                    wt_client.set_tower_status(
+                                        retrier.tower_id,
+                                        TowerStatus::TemporaryUnreachable,
+                                    );
+                                }
                             }
                         }
                     }
